@@ -246,6 +246,8 @@ def builtin(it, name):
             return hasattr(o, a)
         if isinstance(o, (Closure, BoundMethod)):
             return a == "__call__"
+        if hasattr(o, "abs_hasattr"):
+            return o.abs_hasattr(a)
         return False
 
     def b_getattr(o, a, *default):
